@@ -53,12 +53,52 @@ pub fn type_id_of(k: usize) -> std::any::TypeId {
     }
 }
 
+/// 1024 further distinct types for the functions' private data
+pub struct Own<const N: usize>;
+
+macro_rules! own_ids {
+    ($($hi:literal)*) => {
+        [ $( own_row!($hi) ),* ]
+    };
+}
+macro_rules! own_row {
+    ($hi:literal) => {
+        [
+            std::any::TypeId::of::<Own<{ $hi * 32 + 0 }>>(), std::any::TypeId::of::<Own<{ $hi * 32 + 1 }>>(),
+            std::any::TypeId::of::<Own<{ $hi * 32 + 2 }>>(), std::any::TypeId::of::<Own<{ $hi * 32 + 3 }>>(),
+            std::any::TypeId::of::<Own<{ $hi * 32 + 4 }>>(), std::any::TypeId::of::<Own<{ $hi * 32 + 5 }>>(),
+            std::any::TypeId::of::<Own<{ $hi * 32 + 6 }>>(), std::any::TypeId::of::<Own<{ $hi * 32 + 7 }>>(),
+            std::any::TypeId::of::<Own<{ $hi * 32 + 8 }>>(), std::any::TypeId::of::<Own<{ $hi * 32 + 9 }>>(),
+            std::any::TypeId::of::<Own<{ $hi * 32 + 10 }>>(), std::any::TypeId::of::<Own<{ $hi * 32 + 11 }>>(),
+            std::any::TypeId::of::<Own<{ $hi * 32 + 12 }>>(), std::any::TypeId::of::<Own<{ $hi * 32 + 13 }>>(),
+            std::any::TypeId::of::<Own<{ $hi * 32 + 14 }>>(), std::any::TypeId::of::<Own<{ $hi * 32 + 15 }>>(),
+            std::any::TypeId::of::<Own<{ $hi * 32 + 16 }>>(), std::any::TypeId::of::<Own<{ $hi * 32 + 17 }>>(),
+            std::any::TypeId::of::<Own<{ $hi * 32 + 18 }>>(), std::any::TypeId::of::<Own<{ $hi * 32 + 19 }>>(),
+            std::any::TypeId::of::<Own<{ $hi * 32 + 20 }>>(), std::any::TypeId::of::<Own<{ $hi * 32 + 21 }>>(),
+            std::any::TypeId::of::<Own<{ $hi * 32 + 22 }>>(), std::any::TypeId::of::<Own<{ $hi * 32 + 23 }>>(),
+            std::any::TypeId::of::<Own<{ $hi * 32 + 24 }>>(), std::any::TypeId::of::<Own<{ $hi * 32 + 25 }>>(),
+            std::any::TypeId::of::<Own<{ $hi * 32 + 26 }>>(), std::any::TypeId::of::<Own<{ $hi * 32 + 27 }>>(),
+            std::any::TypeId::of::<Own<{ $hi * 32 + 28 }>>(), std::any::TypeId::of::<Own<{ $hi * 32 + 29 }>>(),
+            std::any::TypeId::of::<Own<{ $hi * 32 + 30 }>>(), std::any::TypeId::of::<Own<{ $hi * 32 + 31 }>>(),
+        ]
+    };
+}
+
+/// TypeId of private type number `k` (k < 1024)
+pub fn own_type_id(k: usize) -> std::any::TypeId {
+    thread_local! {
+        static TABLE: [[std::any::TypeId; 32]; 32] = own_ids!(0 1 2 3 4 5 6 7 8 9 10 11 12 13 14 15 16 17 18 19 20 21 22 23 24 25 26 27 28 29 30 31);
+    }
+    TABLE.with(|t| t[(k / 32) % 32][k % 32])
+}
+
 #[derive(Clone, Debug, PartialEq, Eq)]
 pub struct SimFn {
     pub id: usize,
     pub reads: u16,
     pub writes: u16,
     pub style: u8,
+    pub own: u8,
     /// bumped by the `mut` APIs (user-visible mutation through `&mut F`)
     pub visits: u32,
 }
@@ -93,7 +133,16 @@ impl DataAccessDyn for SimFn {
     }
 
     fn borrow_muts(&self) -> TypeIds {
-        self.list(self.writes)
+        let mut t = self.list(self.writes);
+        // private types: unique to this function while id * 2 + j < 1024, so they never
+        // conflict with anything
+        for j in 0..(self.own as usize).min(2) {
+            let k = self.id * 2 + j;
+            if k < 1024 {
+                t.push(own_type_id(k));
+            }
+        }
+        t
     }
 }
 
